@@ -14,38 +14,49 @@
 (*   invokedOn  "-" | "live" | "dead": what the new thread invoked          *)
 (* ByRef = TRUE models the header before the fix: the thread's lambda       *)
 (* captured the parameter by reference.                                     *)
+(*                                                                         *)
+(* A Thread object can be started again once it has been joined (Rounds >  *)
+(* 1): join() of round r leads back to "init" of round r + 1; tpc stays     *)
+(* "exited" and finished stays TRUE until the next start() is called.       *)
+(* ResetOnStart = FALSE models the class before fix F13: start() did not    *)
+(* lower the finished flag, so from the second start on isFinished() was    *)
+(* true while the callable was still running.                               *)
 (***************************************************************************)
 EXTENDS Naturals
-CONSTANTS ByRef
-VARIABLES spc, tpc, palive, finished, seenFinished, invokedOn, invocations
-vars == <<spc, tpc, palive, finished, seenFinished, invokedOn, invocations>>
+CONSTANTS ByRef, Rounds, ResetOnStart
+VARIABLES spc, tpc, palive, finished, seenFinished, invokedOn, invocations, round
+vars == <<spc, tpc, palive, finished, seenFinished, invokedOn, invocations, round>>
 
 Init == /\ spc = "init" /\ tpc = "none" /\ palive = FALSE /\ finished = FALSE
-        /\ seenFinished = FALSE /\ invokedOn = "-" /\ invocations = 0
+        /\ seenFinished = FALSE /\ invokedOn = "-" /\ invocations = 0 /\ round = 1
 
 SCall == /\ spc = "init" /\ spc' = "spawn" /\ palive' = TRUE
-         /\ UNCHANGED <<tpc, finished, seenFinished, invokedOn, invocations>>
+         /\ tpc' = "none" /\ invokedOn' = "-" /\ invocations' = 0
+         /\ finished' = IF ResetOnStart THEN FALSE ELSE finished
+         /\ seenFinished' = IF ResetOnStart THEN FALSE ELSE finished
+         /\ UNCHANGED round
 \* pthread_create, then start() returns and its parameter is destroyed
 SSpawnReturn == /\ spc = "spawn" /\ spc' = "after" /\ tpc' = "created" /\ palive' = FALSE
-                /\ UNCHANGED <<finished, seenFinished, invokedOn, invocations>>
+                /\ UNCHANGED <<finished, seenFinished, invokedOn, invocations, round>>
 \* the starter keeps running (and polls isFinished())
 SAfter == /\ spc = "after" /\ spc' = "join" /\ seenFinished' = finished
-          /\ UNCHANGED <<tpc, palive, finished, invokedOn, invocations>>
-SJoin == /\ spc = "join" /\ tpc = "exited" /\ spc' = "done" /\ seenFinished' = finished
+          /\ UNCHANGED <<tpc, palive, finished, invokedOn, invocations, round>>
+SJoin == /\ spc = "join" /\ tpc = "exited" /\ seenFinished' = finished
+         /\ IF round < Rounds THEN spc' = "init" /\ round' = round + 1 ELSE spc' = "done" /\ UNCHANGED round
          /\ UNCHANGED <<tpc, palive, finished, invokedOn, invocations>>
 TInvoke == /\ tpc = "created" /\ tpc' = "in"
            /\ invokedOn' = IF ByRef /\ ~palive THEN "dead" ELSE "live"
            /\ invocations' = invocations + 1
-           /\ UNCHANGED <<spc, palive, finished, seenFinished>>
+           /\ UNCHANGED <<spc, palive, finished, seenFinished, round>>
 TFinish == /\ tpc = "in" /\ tpc' = "exited" /\ finished' = TRUE
-           /\ UNCHANGED <<spc, palive, seenFinished, invokedOn, invocations>>
+           /\ UNCHANGED <<spc, palive, seenFinished, invokedOn, invocations, round>>
 Next == SCall \/ SSpawnReturn \/ SAfter \/ SJoin \/ TInvoke \/ TFinish
 Spec == Init /\ [][Next]_vars
 
 \* C20
 InvokedLive == invokedOn # "dead"
-Once == invocations <= 1 /\ (spc = "done" => invocations = 1)
+Once == invocations <= 1 /\ (spc = "done" \/ (spc = "init" /\ round > 1) => invocations = 1)
 FinishedOnlyAfter == (finished \/ seenFinished) => tpc = "exited"
-JoinAfterFinish == spc = "done" => finished /\ seenFinished
+JoinAfterFinish == spc = "done" \/ (spc = "init" /\ round > 1) => finished /\ seenFinished
 NoDeadlock == (ENABLED Next) \/ spc = "done"
 =============================================================================
